@@ -18,7 +18,7 @@ pub fn prop() -> Prop {
         check,
         quick_runs: 30_000,
         both_profiles: false,
-        rule: "a run = multi-aircraft traffic into which the channel injects copies of valid DF11/17/18 squitters hit by an error pattern confined to bits 6..n (run index enumerates all single-bit, all double-bit and all (start,length<=24) burst patterns round-robin, plus heavy random ones) at chosen points of the history (before the aircraft is known, after its first frame, between an even/odd pair, at the sweep edge); non-trivial = at least one detectably corrupted squitter was delivered to a non-empty table",
+        rule: "a run = multi-aircraft traffic into which the channel injects copies of valid DF11/17/18 squitters hit by an error pattern confined to bits 6..n (run index enumerates all single-bit, all double-bit and all (start,length<=24) burst patterns round-robin, plus heavy random ones) at chosen points of the history (before the aircraft is known, after its first frame, between an even/odd pair, at the sweep edge); -D /dev/null or an unwritable -D target; non-trivial = at least one detectably corrupted squitter was delivered to a non-empty table",
         level_text: "seeded exploration with bit-flip injection on in-flight squitters; oracle: table bit-for-bit unchanged (time stamps included, clock frozen) and no output when the reference CRC-24 syndrome says the frame must be rejected; DF11 with interrogator-code-only syndrome must be applied",
     }
 }
@@ -83,7 +83,9 @@ fn gen(rng: &mut Rng, idx: u64, _tier: Tier) -> Case {
     // options that must not weaken the check
     if rng.chance(0.15) { for k in [11u32, 17, 18, 4] { if rng.chance(0.8) { args.push(format!("--filter={}", k)); } } }
     if rng.chance(0.15) { args.push(format!("--log-messages={}", rng.pick(&[11u32, 17, 18]))); }
-    if rng.chance(0.1) { args.push("--downlink-log=/dev/null".into()); }
+    // a -D log that cannot be written ends the stream at the first accepted frame; until then (and, with TCP,
+    // on the next connection) damaged squitters must still leave everything alone
+    if rng.chance(0.1) { args.push("--downlink-log=/dev/null".into()); } else if rng.chance(0.05) { args.push("--downlink-log=/dev/full".into()); }
     gen::add_neutral_options(rng, &mut args, false, false);
     let n = rng.range(4, 36) as usize;
     let kinds = [Kind::Df11, Kind::Ident, Kind::AirPos, Kind::AirPos, Kind::Vel12, Kind::Df4, Kind::Df5, Kind::Df0, Kind::SurfPos, Kind::Tc31, Kind::Df18, Kind::Df20(gen::Reg::B20), Kind::Df21(gen::Reg::B50), Kind::Gnss];
@@ -205,7 +207,9 @@ fn check(case: &Case, st: &mut Stats) -> Vec<Violation> {
             let a = c.addr.unwrap();
             let ok = s.after.get(&a).map(|r| r.timestamp == s.t_us).unwrap_or(false);
             let filtered = case.script.filter().map(|f| !f.contains(&11)).unwrap_or(false);
-            if !ok && !filtered && d >= 1 {
+            let log_unwritable = case.script.arg_val("--downlink-log").map(|p| p == "/dev/full").unwrap_or(false);
+            if log_unwritable { st.probe("downlink_log_unwritable"); }
+            if !ok && !filtered && d >= 1 && !log_unwritable {
                 v.push(viol("C04.iid-rejected", i, format!("DF11 {} whose remainder {:06X} carries only an interrogator code was not applied", modes::to_hex(frame), syn), json!({"df": 11, "iid": syn})));
             }
         }
